@@ -185,6 +185,7 @@ class Sentinel:
 NULLOPT = Sentinel("nullopt")
 NULLPTR = Sentinel("nullptr")
 UNINIT = Sentinel("<uninitialised>")
+DEFAULTARG = Sentinel("<default argument>")
 
 
 def copy_value(v):
@@ -607,6 +608,18 @@ class Interp:
             return SharedPtr(None)
         return UNINIT
 
+    def default_elem(self, vec_qn):
+        """Value-initialised element of std::vector<E>."""
+        et = vec_qn[len("std::vector<"):]
+        if et.startswith("std::array<"):
+            k = int(et.split(">")[0].rsplit(",", 1)[1].strip().rstrip("UL"))
+            return Arr([Sc(0)] * k)
+        if self.is_scalar_type(et.split(",")[0].rstrip(">")):
+            return Sc(0)
+        if int_type(et.split(",")[0].rstrip(">")):
+            return 0
+        raise OutOfFragment("value-initialised element of %s" % vec_qn)
+
     def truth(self, v):
         v = val(v)
         if isinstance(v, bool):
@@ -624,6 +637,9 @@ class Interp:
         self.steps += 1
         if self.steps > self.MAXSTEPS:
             raise OutOfFragment("evaluation budget exceeded")
+        cv = e.get("cv")
+        if cv is not None:
+            return int(cv)  # folded by the compiler front end (no side effects)
         k = e["k"]
         m = getattr(self, "ev_" + k, None)
         if m is None:
@@ -665,7 +681,7 @@ class Interp:
         return "str"
 
     def ev_CXXDefaultArgExpr(self, e):
-        raise OutOfFragment("default argument")
+        return DEFAULTARG
 
     def ev_CXXDefaultInitExpr(self, e):
         return self.ev(e["ch"][0])
@@ -897,7 +913,7 @@ class Interp:
                 q = abs(x) // abs(y) * (1 if (x >= 0) == (y >= 0) else -1)
                 return fit(q if op == "/" else x - q * y, int_type(self.T(e)))
             raise OutOfFragment("arithmetic %s on tracked values - outside the comparison-only fragment" % op)
-        raise OutOfFragment("binary operator %s" % op)
+        raise OutOfFragment("binary operator %s on %r, %r (line %s)" % (op, x, y, e.get("l")))
 
     def ev_CompoundAssignOperator(self, e):
         op = e["op"][:-1]
@@ -947,6 +963,7 @@ class Interp:
     ev_CXXTemporaryObjectExpr = ev_CXXConstructExpr
 
     def std_construct(self, rq, d, args, e):
+        args = [a for a in args if a is not DEFAULTARG]
         vals = [val(a) for a in args]
         if rq.startswith("std::optional<"):
             if not vals:
@@ -998,7 +1015,9 @@ class Interp:
         if rq.startswith("std::array<"):
             if vals and isinstance(vals[0], Arr):
                 return vals[0].copy()
-            raise OutOfFragment("array constructor")
+            if not vals:
+                return self.default_value(rq)
+            raise OutOfFragment("array constructor from %r" % (vals,))
         if rq.startswith("__gnu_cxx::__normal_iterator<") or rq.startswith("std::reverse_iterator<"):
             if vals and isinstance(vals[0], Iter):
                 return vals[0].copy()
@@ -1099,6 +1118,7 @@ class Interp:
         name = d["name"]
         rq = d.get("recqn", "")
         A = [self.ev(a) for a in ci.args]
+        A = [a for a in A if a is not DEFAULTARG]
         V = [val(a) for a in A]
         obj = self.ev(ci.obj) if ci.obj is not None else None
         o = val(obj) if obj is not None else None
@@ -1164,6 +1184,21 @@ class Interp:
                     if not ok:
                         return 0
                 return 1
+            if base == "std::mismatch":
+                first1, last1, first2 = V[0], V[1], V[2]
+                last2 = V[3] if len(V) > 3 and isinstance(V[3], Iter) else None
+                pred = A[-1] if not isinstance(V[-1], Iter) else None
+                i = 0
+                while first1.pos + i < last1.pos and (last2 is None or first2.pos + i < last2.pos):
+                    a_ = self.deref(Iter(first1.vec, first1.pos + i))
+                    b_ = self.deref(Iter(first2.vec, first2.pos + i))
+                    same = self._callable(pred, a_, b_) if pred is not None else self._eq(a_, b_)
+                    if not same:
+                        break
+                    i += 1
+                pr = Obj("std::pair", None)
+                pr.fields = {"first": Iter(first1.vec, first1.pos + i), "second": Iter(first2.vec, first2.pos + i)}
+                return pr
             if base == "std::adjacent_find":
                 first, last = V[0], V[1]
                 pred = A[2] if len(A) > 2 else None
@@ -1244,9 +1279,14 @@ class Interp:
                             raise ModelUB("invalid iterator range")
                         return SharedPtr(Vec([copy_value(x) for x in a.vec.items[a.pos:b.pos]]))
                 raise OutOfFragment("make_shared of %s" % t)
-            if base == "std::operator==" or base == "std::operator!=":
+            if qn.startswith("std::operator") and name in ("operator==", "operator!="):
+                base = "std::" + name
                 x, y = V
-                if isinstance(x, SharedPtr) or isinstance(y, SharedPtr):
+                if isinstance(x, Iter) and isinstance(y, Iter):
+                    if x.vec is not y.vec:
+                        raise ModelUB("comparison of iterators into different containers")
+                    r = x.pos == y.pos
+                elif isinstance(x, SharedPtr) or isinstance(y, SharedPtr):
                     tx = x.target if isinstance(x, SharedPtr) else None
                     ty = y.target if isinstance(y, SharedPtr) else None
                     r = tx is ty
@@ -1258,8 +1298,8 @@ class Interp:
                 else:
                     r = self._eq(x, y)
                 return 1 if (r == (base == "std::operator==")) else 0
-            if base.startswith("__gnu_cxx::operator") or base.startswith("std::operator"):
-                op = base.split("operator", 1)[1]
+            if name.startswith("operator") and (qn.startswith("__gnu_cxx::operator") or qn.startswith("std::operator")):
+                op = name[len("operator"):]
                 x, y = V
                 if isinstance(x, (Iter, int)) and isinstance(y, (Iter, int)):
                     return self.binop(op, x, y, e)
@@ -1381,6 +1421,34 @@ class Interp:
                 return None
             if name == "clear":
                 o.items[:] = []
+                return None
+            if name == "resize":
+                k = V[0]
+                if k < 0:
+                    raise ModelUB("resize to negative size")
+                if k <= n:
+                    del o.items[k:]
+                else:
+                    fill = V[1] if len(V) > 1 else None
+                    for _ in range(k - n):
+                        if fill is not None:
+                            o.items.append(copy_value(fill))
+                        else:
+                            o.items.append(self.default_elem(rq))
+                return None
+            if name == "assign":
+                if isinstance(V[0], Iter):
+                    o.items[:] = [copy_value(x) for x in V[0].vec.items[V[0].pos:V[1].pos]]
+                else:
+                    o.items[:] = [copy_value(V[1]) for _ in range(V[0])]
+                return None
+            if name == "insert" and len(V) == 2 and isinstance(V[0], Iter):
+                if V[0].pos < 0 or V[0].pos > n:
+                    raise ModelUB("insert with invalid iterator")
+                o.items.insert(V[0].pos, copy_value(V[1]))
+                return Iter(o, V[0].pos)
+            if name == "swap":
+                o.items, V[0].items = V[0].items, o.items
                 return None
             if name == "pop_back":
                 if n == 0:
